@@ -1,24 +1,48 @@
 (* C20 — the hand-written model equals what the translator reads off the source.
 
    theories/C20/Gen.v is regenerated from failsafe/state_change_watcher.go on every
-   check run: ONE iteration of the `for { … }` loop of StateChangeWatcher.run
-   ([Gen.run_iteration]).  The observation scw.config.ObtainPredicate() is an
-   input, the callbacks OnChangeToTrue / OnChangeToFalse are returned as the list
-   of emitted events, and each reading of the clock is a parameter:
-     now1  clock.Since(lastRunAt) at the top of the loop (only decides whether to wait)
-     now2  changeStart = clock.Now()        (the observation differs from the last one)
-     now3  clock.Since(changeStart)         (stability test)
-     now4  lastRunAt = clock.Now()          (end of the iteration)
-   The two blocking waits (clock.After at the top, clock.Sleep(CooldownPeriod)
-   after OnChangeToFalse) are dropped by the translator: what they do to the
-   clock is exactly what the model says about the readings — Model.step evaluates
-   the observation at t = wait_until … + d, and the iteration ends at t, or at
-   t + cooldown after a change to false.  C20_gen_run_iteration is the square:
-   with the readings the model prescribes, the generated iteration yields the
-   model's next state, its end instant and its event, for ALL states,
-   configurations, observations and instants (after the epoch). *)
+   check run:
+     Gen.NewStateChangeWatcher   the constructor (initial state of the watcher)
+     Gen.run_iteration           ONE iteration of the `for { … }` loop of
+                                 StateChangeWatcher.run
+   The observation scw.config.ObtainPredicate() is an input, the callbacks
+   OnChangeToTrue / OnChangeToFalse are returned as the list of emitted events,
+   the two blocking waits (`<-clock.After(timeToWait)`, `clock.Sleep(CooldownPeriod)`)
+   are recorded in the log that stands for the clock (C20/Clock.v), and each
+   reading of the clock is a parameter, in source order:
+     now1  clock.Since(lastRunAt) at the top of the loop (decides whether to wait)
+     now2  the instant the wait for the check interval starts
+     now3  changeStart = clock.Now()        (the observation differs from the last one)
+     now4  clock.Since(changeStart)         (stability test)
+     now5  the instant the cool-down sleep starts
+     now6  lastRunAt = clock.Now()          (end of the iteration)
+   (now3 and now4 are on different branches: an execution reads at most one of
+   them; below both are the one reading [t] taken after the predicate returned.
+   A reading an execution does not take can be given any value that keeps the
+   chain ordered, e.g. that of its predecessor.)
+
+   What is proved here, for ALL watcher states, settings (with periods no longer
+   than ~2000 years, [settings_ok]), observations and readings:
+     C20_gen_init            repr (NewStateChangeWatcher …) = Model.init
+     C20_gen_run_iteration   under a clock that does not run backwards and respects
+                             the waits the generated code recorded ([clock_ok]), the
+                             generated iteration IS a step of the model for an item
+                             with non-negative slacks: same next state, same end
+                             instant, same event, same observation instant
+     C20_gen_run             the same for whole runs (any number of iterations), by
+                             induction: every execution of the generated loop under
+                             such a clock is [Model.run] of an admissible script
+     C20_gen_alternate, C20_gen_cooldown
+                             two of the statements of Property.v transported to the
+                             generated loop (the callbacks it emits; the readings it
+                             is given)
+   So the waits of the model ([wait_until], the [wait_from t cC] shift after
+   OnChangeToFalse) are derived from the source: whether, when and how long the
+   code waits is in the generated log; the only thing said by hand about a wait
+   is what a blocking wait is ([Clock.wait_end]: it returns max(d,0) or later
+   after it started) and that the readings are ordered as in the source. *)
 From Coq Require Import List ZArith Bool Lia.
-From Verif Require Import Lib.GoSem C20.Model.
+From Verif Require Import Lib.GoSem C20.Clock C20.Model C20.Proofs.
 From Verif Require C20.Gen.
 Import ListNotations.
 Open Scope Z_scope.
@@ -46,6 +70,16 @@ Definition ev_false : gostring := [79;110;67;104;97;110;103;101;84;111;70;97;108
 Definition callbacks_of (e : ev) : list gostring :=
   if e_fire e then [if e_obs e then ev_true else ev_false] else [].
 
+(* ---------------------------------------------------------------- initial state *)
+
+Theorem C20_gen_init : forall name config clk logger,
+  repr (Gen.NewStateChangeWatcher name config clk logger) = init /\
+  Gen.watcher_config (Gen.NewStateChangeWatcher name config clk logger) = config.
+Proof. intros. split; reflexivity. Qed.
+Print Assumptions C20_gen_init.
+
+(* ---------------------------------------------------------------- one iteration *)
+
 Lemma repr_time_pos t : 0 <= t -> repr_time t = Some t.
 Proof.
   intros H. unfold repr_time. destruct (t =? time_zero) eqn:E; [|reflexivity].
@@ -64,52 +98,313 @@ Qed.
 Lemma if_same (T : Type) (b : bool) (x : T) : (if b then x else x) = x.
 Proof. now destruct b. Qed.
 
-Theorem C20_gen_run_iteration : forall w obs now d,
+(* The clock of one iteration.  [prev] = its reading when the iteration starts
+   (the end of the previous one); the readings given to the generated code, in
+   source order:
+     now1  Since(lastRunAt) at the top of the loop
+     ta    the instant `<-clock.After(timeToWait)` starts   (read only when it waits)
+     t     after the predicate returned (changeStart = Now() / Since(changeStart))
+     ts    the instant `clock.Sleep(CooldownPeriod)` starts  (read only when it sleeps)
+     tend  lastRunAt = Now()
+   [log] = the blocking waits the GENERATED iteration recorded (C20/Clock.v).
+   The clock does not run backwards, and a reading taken after a wait returned is
+   not before [wait_end]: the After precedes the predicate, hence [t]; the Sleep
+   precedes the end of the iteration, hence [tend].  Which waits there are, when
+   they start and how long they last is read off the source (the log); nothing
+   about the waits is hand-written any more except this source order. *)
+Definition clock_ok (log : clk) (prev now1 ta t ts tend : Z) : Prop :=
+  prev <= now1 /\ now1 <= ta /\ ta <= t /\ t <= ts /\ ts <= tend /\
+  Forall (fun w => wait_end w <= if is_sleep w then tend else t) log.
+
+(* the item of the model such an iteration is *)
+Definition item_of (c : cfg) (s : st) (log : clk) (obs : bool) (prev now1 t tend : Z) : item :=
+  It obs (now1 - prev) (t - wait_until c s now1) (tend - (t + sleep_total log)).
+
+(* the hypothesis on the settings: the stable period and the check interval are at
+   most the distance of the epoch from the zero time (~2000 years; every int64
+   Duration is): Go's saturated Since(zero time) then passes the period test and
+   asks for no wait, as [since_ge _ None] and [wait_until] with [lastRun = None] do *)
+Definition settings_ok (c : cfg) : Prop := cP c <= - time_zero /\ cI c <= - time_zero.
+
+(* [wait_until] is the generated code's wait: by timeToWait when that is positive *)
+Lemma wait_until_gen : forall w now1,
+  let c := repr_cfg (Gen.watcher_config w) in
+  let ttw := Gen.Config_MinTimeBetweenCalls (Gen.watcher_config w)
+             - clock_since (Gen.watcher_lastRunAt w) now1 in
+  0 <= now1 -> cI c <= - time_zero ->
+  wait_until c (repr w) now1 = if 0 <? ttw then now1 + ttw else now1.
+Proof.
+  intros w now1 c ttw H0 HI. unfold wait_until, repr, repr_time. cbn [lastRun].
+  subst ttw. unfold clock_since. change (cI c) with (Gen.Config_MinTimeBetweenCalls (Gen.watcher_config w)) in *.
+  destruct (Gen.watcher_lastRunAt w =? time_zero) eqn:E.
+  - apply Z.eqb_eq in E. rewrite E.
+    destruct (0 <? _) eqn:Hw; [apply Z.ltb_lt in Hw; lia|reflexivity].
+  - reflexivity.
+Qed.
+
+Theorem C20_gen_run_iteration : forall w obs prev now1 ta t ts tend,
   let c := repr_cfg (Gen.watcher_config w) in
   let s := repr w in
-  let t := wait_until c s now + d in
-  0 <= t -> 0 <= cC c -> cP c <= t - time_zero ->
-  let '(s', tend, e) := step c s now (obs, d) in
-  let '(w', evs) := Gen.run_iteration obs w now t t tend in
-  repr w' = s'
-  /\ Gen.watcher_config w' = Gen.watcher_config w
-  /\ evs = callbacks_of e
-  /\ e_obs e = obs /\ e_at e = t.
+  let res := Gen.run_iteration obs (Gen.set_watcher_clock [] w) now1 ta t t ts tend in
+  let w' := fst res in
+  let evs := snd res in
+  let log := Gen.watcher_clock w' in
+  let o := item_of c s log obs prev now1 t tend in
+  0 <= prev -> settings_ok c -> clock_ok log prev now1 ta t ts tend ->
+  item_ok o /\ i_obs o = obs /\
+  Gen.watcher_config w' = Gen.watcher_config w /\
+  exists e, step c s prev o = (repr w', tend, e) /\
+            evs = callbacks_of e /\ e_obs e = obs /\ e_at e = t.
 Proof.
-  intros w obs now d c s t Ht Hc HP.
-  destruct w as [cf lra ls cc cs ct css].
-  unfold step. cbn [fst snd]. fold t.
-  unfold Gen.run_iteration.
-  cbn [Gen.watcher_config Gen.watcher_lastRunAt Gen.watcher_lastState Gen.watcher_changeCount
-       Gen.watcher_changeStart Gen.watcher_changeTriggered Gen.watcher_currentStableState] in *.
+  intros w obs prev now1 ta t ts tend c s res w' evs log o Hprev [HP HI] Hck.
+  assert (ER : res = (w', evs)) by (unfold w', evs; destruct res; reflexivity).
+  clearbody w' evs.
+  assert (H1 : 0 <= now1) by (destruct Hck as (H1 & _); lia).
+  assert (Ht : 0 <= t) by (destruct Hck as (? & ? & ? & _); lia).
+  assert (Htend : 0 <= tend) by (destruct Hck as (? & ? & ? & ? & ? & _); lia).
+  assert (HPt : cP c <= t - time_zero) by lia.
+  pose proof (wait_until_gen w now1 H1 HI) as Hwu. cbv zeta in Hwu. fold c s in Hwu.
+  unfold step, o, item_of. cbn [i_obs i_pre i_d i_post].
+  replace (prev + (now1 - prev)) with now1 by lia.
+  replace (wait_until c s now1 + (t - wait_until c s now1)) with t by lia.
+  rewrite Hwu. clear Hwu.
+  subst res.
+  destruct w as [ck cf lra ls cc cs ct css lg].
+  unfold Gen.run_iteration in ER.
+  cbn [Gen.set_watcher_clock
+       Gen.watcher_config Gen.watcher_lastRunAt Gen.watcher_lastState Gen.watcher_changeCount
+       Gen.watcher_changeStart Gen.watcher_changeTriggered Gen.watcher_currentStableState
+       Gen.watcher_clock Gen.watcher_logger] in *.
   unfold s, repr.
   cbn [last cnt start trig stable lastRun
        Gen.watcher_config Gen.watcher_lastRunAt Gen.watcher_lastState Gen.watcher_changeCount
        Gen.watcher_changeStart Gen.watcher_changeTriggered Gen.watcher_currentStableState].
-  rewrite (since_ge_repr t cs (cP c) HP).
+  rewrite (since_ge_repr t cs (cP c) HPt).
   change (cP c) with (Gen.Config_MinStablePeriod cf).
   change (cN c) with (Gen.Config_ConsecutiveN cf).
-  change (cC c) with (Gen.Config_CooldownPeriod cf) in *.
-  (* every case: the model's tuple is explicit, the generated iteration is evaluated
-     with the same tests; whether the code waits at the top does not matter *)
-  destruct (Bool.eqb obs ls) eqn:Eobs; cbn [negb];
-    [destruct (Gen.Config_ConsecutiveN cf <=? cc + 1) eqn:EN; cbn [andb];
-      [destruct (Gen.Config_MinStablePeriod cf <=? clock_since cs t) eqn:EP; cbn [andb];
-        [destruct ct; cbn [negb andb];
-          [|destruct (Bool.eqb obs css) eqn:Est; cbn [negb andb]; [|destruct obs]]|]|]|].
-  all: cbv beta iota; rewrite if_same;
+  change (cC c) with (Gen.Config_CooldownPeriod cf).
+  set (ttw := Gen.Config_MinTimeBetweenCalls cf - clock_since lra now1) in *.
+  destruct (0 <? ttw) eqn:Ew;
+  (destruct (Bool.eqb obs ls) eqn:Eobs; cbn [negb] in *;
+    [destruct (Gen.Config_ConsecutiveN cf <=? cc + 1) eqn:EN; cbn [andb] in *;
+      [destruct (Gen.Config_MinStablePeriod cf <=? clock_since cs t) eqn:EP; cbn [andb] in *;
+        [destruct ct; cbn [negb andb] in *;
+          [|destruct (Bool.eqb obs css) eqn:Est; cbn [negb andb] in *; [|destruct obs]]|]|]|]).
+  all: cbn [Gen.set_watcher_changeCount Gen.set_watcher_changeStart Gen.set_watcher_changeTriggered
+            Gen.set_watcher_lastState Gen.set_watcher_lastRunAt Gen.set_watcher_currentStableState
+            Gen.set_watcher_clock
+            Gen.watcher_config Gen.watcher_lastRunAt Gen.watcher_lastState Gen.watcher_changeCount
+            Gen.watcher_changeStart Gen.watcher_changeTriggered Gen.watcher_currentStableState
+            Gen.watcher_clock Gen.watcher_logger] in ER;
+       rewrite ?Eobs, ?EN, ?EP, ?Est in ER; cbn [negb andb Bool.eqb app] in ER;
+       injection ER as <- <-;
+       subst log; unfold clk_after, clk_sleep in *;
        cbn [Gen.set_watcher_changeCount Gen.set_watcher_changeStart Gen.set_watcher_changeTriggered
             Gen.set_watcher_lastState Gen.set_watcher_lastRunAt Gen.set_watcher_currentStableState
+            Gen.set_watcher_clock
             Gen.watcher_config Gen.watcher_lastRunAt Gen.watcher_lastState Gen.watcher_changeCount
-            Gen.watcher_changeStart Gen.watcher_changeTriggered Gen.watcher_currentStableState];
-       rewrite ?Eobs, ?EN, ?EP, ?Est; cbn [negb andb Bool.eqb app];
-       unfold repr, callbacks_of;
-       cbn [Gen.watcher_config Gen.watcher_lastRunAt Gen.watcher_lastState Gen.watcher_changeCount
             Gen.watcher_changeStart Gen.watcher_changeTriggered Gen.watcher_currentStableState
-            e_fire e_obs e_at];
-       rewrite ?(repr_time_pos t Ht), ?(repr_time_pos (t + Gen.Config_CooldownPeriod cf)) by lia;
-       repeat split.
-  all: cbn -[repr_time];
-       rewrite ?(repr_time_pos t Ht), ?(repr_time_pos (t + Gen.Config_CooldownPeriod cf)) by lia;
+            Gen.watcher_clock Gen.watcher_logger
+            app sleep_total fold_right is_sleep snd fst] in *;
+       destruct Hck as (Hk1 & Hk2 & Hk3 & Hk4 & Hk5 & Hk6);
+       repeat match goal with H : Forall _ (_ :: _) |- _ =>
+         let Hh := fresh "Hw" in
+         pose proof (Forall_inv H) as Hh; apply Forall_inv_tail in H;
+         unfold wait_end, is_sleep in Hh; cbn [fst snd] in Hh end;
+       apply Z.ltb_lt in Ew || apply Z.ltb_ge in Ew;
+       (split; [unfold item_ok; cbn [i_pre i_d i_post]; lia|]);
+       (split; [reflexivity|]); (split; [reflexivity|]);
+       eexists; (split; [|split; [|split]]);
+       try (cbn [e_obs e_at]; reflexivity).
+  all: try (unfold callbacks_of; cbn [e_fire e_obs]; reflexivity).
+  all: unfold repr, wait_from;
+       cbn [Gen.watcher_config Gen.watcher_lastRunAt Gen.watcher_lastState Gen.watcher_changeCount
+            Gen.watcher_changeStart Gen.watcher_changeTriggered Gen.watcher_currentStableState];
+       rewrite ?Z.add_0_r;
+       rewrite ?Eobs, ?EN, ?EP, ?Est; cbn [negb andb Bool.eqb];
+       repeat match goal with |- context [?a + (?e - ?b)] =>
+         replace (a + (e - b)) with e by lia end;
+       rewrite ?(repr_time_pos t Ht), ?(repr_time_pos tend Htend);
        reflexivity.
+Qed.
+Print Assumptions C20_gen_run_iteration.
+
+(* ---------------------------------------------------------------- whole runs *)
+
+(* what one iteration of the generated loop is given: the observation and the
+   readings of the clock (top of the loop, start of the wait for the interval,
+   after the predicate, start of the cool-down sleep, end of the iteration) *)
+Record reading := Rd { r_obs : bool; r_now1 : Z; r_ta : Z; r_t : Z; r_ts : Z; r_end : Z }.
+
+(* one iteration; the log of waits (ghost state, C20/Clock.v) is emptied first, so
+   that afterwards it holds the waits of this iteration *)
+Definition gen_iter (w : Gen.watcher) (r : reading) : Gen.watcher * list gostring :=
+  Gen.run_iteration (r_obs r) (Gen.set_watcher_clock [] w) (r_now1 r) (r_ta r) (r_t r) (r_t r) (r_ts r) (r_end r).
+
+(* the generated loop: the callbacks emitted by each iteration, in order *)
+Fixpoint gen_run (w : Gen.watcher) (rs : list reading) : list (list gostring) :=
+  match rs with
+  | [] => []
+  | r :: rest => snd (gen_iter w r) :: gen_run (fst (gen_iter w r)) rest
+  end.
+
+(* the clock is admissible along the whole run; [prev] = its reading when the
+   loop is entered *)
+Fixpoint gen_clock_ok (w : Gen.watcher) (prev : Z) (rs : list reading) : Prop :=
+  match rs with
+  | [] => True
+  | r :: rest =>
+      clock_ok (Gen.watcher_clock (fst (gen_iter w r)))
+               prev (r_now1 r) (r_ta r) (r_t r) (r_ts r) (r_end r) /\
+      gen_clock_ok (fst (gen_iter w r)) (r_end r) rest
+  end.
+
+(* the script of the model such a run is *)
+Fixpoint script_of (w : Gen.watcher) (prev : Z) (rs : list reading) : list item :=
+  match rs with
+  | [] => []
+  | r :: rest =>
+      item_of (repr_cfg (Gen.watcher_config w)) (repr w) (Gen.watcher_clock (fst (gen_iter w r)))
+              (r_obs r) prev (r_now1 r) (r_t r) (r_end r)
+      :: script_of (fst (gen_iter w r)) (r_end r) rest
+  end.
+
+Lemma clock_ok_end log prev now1 ta t ts tend :
+  0 <= prev -> clock_ok log prev now1 ta t ts tend -> 0 <= tend.
+Proof. intros Hp (H1 & H2 & H3 & H4 & H5 & _). lia. Qed.
+
+Theorem C20_gen_run : forall rs w prev,
+  let c := repr_cfg (Gen.watcher_config w) in
+  let script := script_of w prev rs in
+  0 <= prev -> settings_ok c -> gen_clock_ok w prev rs ->
+  Forall item_ok script /\
+  map i_obs script = map r_obs rs /\
+  gen_run w rs = map callbacks_of (run c (repr w) prev script) /\
+  map e_at (run c (repr w) prev script) = map r_t rs.
+Proof.
+  induction rs as [|r rest IH]; intros w prev c script Hprev HP Hok; subst c script.
+  { repeat split; constructor. }
+  cbn [gen_clock_ok] in Hok. destruct Hok as [Hck Hrest].
+  pose proof (C20_gen_run_iteration w (r_obs r) prev (r_now1 r) (r_ta r) (r_t r) (r_ts r) (r_end r)) as H1.
+  cbv zeta in H1. fold (gen_iter w r) in H1.
+  specialize (H1 Hprev HP Hck).
+  destruct H1 as (Hitem & Hobs & Hcfg & e & Hstep & Hevs & Heobs & Heat).
+  pose proof (clock_ok_end _ _ _ _ _ _ _ Hprev Hck) as Hend.
+  specialize (IH (fst (gen_iter w r)) (r_end r)). cbv zeta in IH.
+  rewrite Hcfg in IH. specialize (IH Hend HP Hrest).
+  destruct IH as (IH1 & IH2 & IH3 & IH4).
+  cbn [script_of].
+  repeat split.
+  - constructor; assumption.
+  - cbn [map]. rewrite Hobs. f_equal. exact IH2.
+  - cbn [gen_run]. rewrite run_cons, Hstep. cbn [map]. rewrite <- Hevs. f_equal.
+    exact IH3.
+  - rewrite run_cons, Hstep. cbn [map]. rewrite Heat. f_equal. exact IH4.
+Qed.
+Print Assumptions C20_gen_run.
+
+(* ---------------------------------------------------------------- transported statements *)
+
+Definition token_of (b : bool) : gostring := if b then ev_true else ev_false.
+
+Lemma callbacks_reactions tr :
+  concat (map callbacks_of tr) = map token_of (map fst (reactions tr)).
+Proof.
+  induction tr as [|e tr IH]; [reflexivity|].
+  cbn [map concat]. unfold reactions. cbn [flat_map]. fold (reactions tr).
+  unfold callbacks_of at 1. destruct (e_fire e); cbn [app map fst]; rewrite IH; reflexivity.
+Qed.
+
+(* the callbacks the generated loop emits, started from the generated constructor,
+   alternate and begin with OnChangeToFalse — for every admissible clock *)
+Theorem C20_gen_alternate : forall name config clk logger t0 rs,
+  let w0 := Gen.NewStateChangeWatcher name config clk logger in
+  0 <= t0 -> settings_ok (repr_cfg config) -> gen_clock_ok w0 t0 rs ->
+  exists kinds, concat (gen_run w0 rs) = map token_of kinds /\ alternates_from true kinds.
+Proof.
+  intros name config clk logger t0 rs w0 Ht0 HP Hok.
+  destruct (C20_gen_init name config clk logger) as [Hinit Hcfg]. fold w0 in Hinit, Hcfg.
+  pose proof (C20_gen_run rs w0 t0) as H. cbv zeta in H. rewrite Hcfg, Hinit in H.
+  destruct (H Ht0 HP Hok) as (_ & _ & Hrun & _).
+  eexists. split.
+  - rewrite Hrun. apply callbacks_reactions.
+  - exact (alternation (repr_cfg config) (script_of w0 t0 rs) init t0).
+Qed.
+Print Assumptions C20_gen_alternate.
+
+Lemma map_split_at {A B} (f : A -> B) (l : list A) : forall pre y post,
+  map f l = pre ++ y :: post ->
+  exists pre' x post', l = pre' ++ x :: post' /\ map f pre' = pre /\ f x = y /\ map f post' = post.
+Proof.
+  induction l as [|a l IH]; intros pre y post H.
+  { destruct pre; discriminate. }
+  destruct pre as [|p pre].
+  - cbn in H. injection H as H1 H2. exists [], a, l. auto.
+  - cbn in H. injection H as H1 H2. destruct (IH _ _ _ H2) as (pre' & x & post' & -> & E1 & E2 & E3).
+    exists (a :: pre'), x, post'. cbn. subst. auto.
+Qed.
+
+(* after an iteration of the generated loop that called OnChangeToFalse when the
+   clock read t, no later iteration reads the clock (after its predicate) before
+   t + cool-down *)
+Theorem C20_gen_cooldown : forall name config clk logger t0 pre r post,
+  let w0 := Gen.NewStateChangeWatcher name config clk logger in
+  let rs := pre ++ r :: post in
+  0 <= t0 -> settings_ok (repr_cfg config) -> gen_clock_ok w0 t0 rs ->
+  nth (length pre) (gen_run w0 rs) [] = [ev_false] ->
+  Forall (fun r' => r_t r + Z.max (Gen.Config_CooldownPeriod config) 0 <= r_t r') post.
+Proof.
+  intros name config clk logger t0 pre r post w0 rs Ht0 HP Hok Hnth.
+  destruct (C20_gen_init name config clk logger) as [Hinit Hcfg]. fold w0 in Hinit, Hcfg.
+  pose proof (C20_gen_run rs w0 t0) as H. cbv zeta in H. rewrite Hcfg, Hinit in H.
+  destruct (H Ht0 HP Hok) as (Hitems & _ & Hrun & Hat). clear H.
+  set (c := repr_cfg config) in *. set (script := script_of w0 t0 rs) in *.
+  unfold rs in Hat. rewrite map_app in Hat. cbn [map] in Hat.
+  destruct (map_split_at _ _ _ _ _ Hat) as (pre' & e & post' & Htr & Epre & Ee & Epost).
+  assert (Hlen : length pre' = length pre).
+  { rewrite <- (map_length e_at pre'), Epre, map_length. reflexivity. }
+  rewrite Hrun, Htr, map_app in Hnth. cbn [map] in Hnth.
+  rewrite app_nth2 in Hnth by (rewrite map_length; lia).
+  rewrite map_length, Hlen, Nat.sub_diag in Hnth. cbn [nth] in Hnth.
+  unfold callbacks_of in Hnth.
+  destruct (e_fire e) eqn:F; [|discriminate].
+  destruct (e_obs e) eqn:O; [discriminate|].
+  pose proof (cooldown_silent c script init t0 Hitems pre' e post' Htr F O) as Hcs.
+  assert (Hm : Forall (fun x => r_t r + Z.max (cC c) 0 <= x) (map r_t post)).
+  { rewrite <- Epost, <- Ee. apply Forall_map. exact Hcs. }
+  rewrite Forall_forall in Hm. apply Forall_forall. intros x Hx.
+  apply (Hm (r_t x)). apply in_map. exact Hx.
+Qed.
+Print Assumptions C20_gen_cooldown.
+
+(* ---------------------------------------------------------------- non-vacuity *)
+
+(* an admissible clock on which the generated loop, started from the generated
+   constructor, calls both callbacks (the run of C20_fires_somewhere: every
+   iteration but the first waits 5 for the interval, the third sleeps the
+   cool-down of 7 from 110 to 117) *)
+Definition ex_rs : list reading :=
+  [Rd false 100 100 100 100 100; Rd false 100 100 105 105 105; Rd false 105 105 110 110 117;
+   Rd true 117 117 122 122 122; Rd true 122 122 127 127 127; Rd true 127 127 132 132 132].
+Definition ex_w0 : Gen.watcher :=
+  Gen.NewStateChangeWatcher [] (Gen.mk_Config 5 2 10 7) [] tt.
+
+Example C20_gen_fires_somewhere :
+  settings_ok (repr_cfg (Gen.mk_Config 5 2 10 7)) /\
+  gen_clock_ok ex_w0 100 ex_rs /\
+  concat (gen_run ex_w0 ex_rs) = [ev_false; ev_true] /\
+  nth 2 (gen_run ex_w0 ex_rs) [] = [ev_false].
+Proof.
+  split; [unfold settings_ok, time_zero, ns_per_sec; cbn; lia|].
+  split; [|split; vm_compute; reflexivity].
+  unfold ex_rs. cbn [gen_clock_ok].
+  repeat match goal with
+  | |- _ /\ _ => split
+  | |- True => exact I
+  | |- clock_ok ?l _ _ _ _ _ _ =>
+      let l' := eval vm_compute in l in change l with l';
+      unfold clock_ok
+  end.
+  all: try (vm_compute; intros; discriminate).
+  all: try (repeat constructor; vm_compute; intros; discriminate).
 Qed.
